@@ -25,6 +25,22 @@ KINDS = [
     ('props.C08', 'join_harness', {'algo': 'hash', 'variant': 'Outer', 'nl': 2, 'nr': 2, 'iters': 2}, True),
     ('props.C08', 'join_harness', {'algo': 'sort_merge', 'variant': 'Outer', 'nl': 2, 'nr': 2, 'iters': 2}, True),
     ('props.C09', 'zip_harness', {'nl': 2, 'nr': 1, 'iters': 2, 'max_len': [2, 1], 'timed': False}, False),
+    ('props.C09', 'merge_harness', {'nl': 2, 'nr': 1, 'iters': 2, 'max_len': [2, 1]}, True),
+    ('props.C06', 'flat_map_harness', {'iters': 2, 'max_len': [3, 2]}, False),
+    ('props.C13', 'transaction_harness', {'max_len': 4}, False),
+    ('props.C08', 'interval_join_harness', {'n': 4, 'iters': 2}, True),
+    ('props.C10', 'iteration_end_harness', {'rounds': 3}, False),
+    # harnesses whose native replay runs a whole job through the public API (or has no element-wise output): the
+    # oracle must accept the real build on every sampled input
+    ('props.C09', 'route_harness', {'nroutes': 3, 'mode': 'fixed', 'bsize': 2, 'iters': 2, 'max_len': [3, 2]}, None),
+    ('props.C07', 'two_phase_harness', {'builder': 'group_by_avg', 'op': 'add', 'nvals': 4, 'nparts': 3}, None),
+    ('props.C07', 'two_phase_harness', {'builder': 'reduce_assoc', 'op': 'max', 'nvals': 4, 'nparts': 3}, None),
+    ('props.C07', 'two_phase_harness', {'builder': 'group_by_min_element', 'op': 'add', 'nvals': 3, 'nparts': 2}, None),
+    ('props.C10', 'replay_harness', {'outer': 1, 'max_len': 3, 'max_rounds': 3}, None),
+    ('props.C10', 'iterate_harness', {'max_len': 2, 'max_rounds': 3, 'outer': 1}, None),
+    ('props.C15', 'channel_source_harness', {'n': 2}, None),
+    ('props.C19', 'replication_algebra', {}, None),
+    ('props.C20', 'dead_channel_harness', {'adaptive': True}, None),
 ]
 
 
@@ -70,10 +86,17 @@ def main():
     w = common.world()
     rp = common.replayer()
     t0 = time.time()
-    programs, disagreements, samples, skipped = 0, [], [], 0
+    programs, disagreements, samples, skipped, unusable = 0, [], [], 0, []
+    only = os.environ.get('VERIF_VALIDATE_ONLY')
     for modname, fac, params, unordered in KINDS:
+        if only and not any(o in fac for o in only.split(',')):
+            continue
         mod = importlib.import_module(modname)
-        h = getattr(mod, fac)(w, **params)
+        f = getattr(mod, fac, None)
+        for alt in ('props.ops', 'props.binary', 'props.joins', 'props.end', 'props.start'):
+            if f is None:
+                f = getattr(importlib.import_module(alt), fac, None)
+        h = f(w, **params)
         for i in range(K):
             rnd = random.Random(1000 * seed + 17 * i + hash(fac) % 1000)
             ex = Executor(w, [])
@@ -86,11 +109,11 @@ def main():
                 skipped += 1
                 continue
             m = ex.model_for(True)
-            if m is None or 'last_output' not in ex.env:
+            if m is None or (unordered is not None and 'last_output' not in ex.env):
                 skipped += 1
                 continue
             wit = witness_of(ex, m)
-            a = [conc(ex, v, m) for v in ex.env['last_output']]
+            a = [conc(ex, v, m) for v in ex.env.get('last_output', [])]
             outs = {}
             for prof in ('dev', 'release'):
                 ex2 = Executor(w, ex.trace)
@@ -101,7 +124,13 @@ def main():
                     h(ex2)
                 except (Violation, RustPanic) as e:
                     disagreements.append({'kind': fac, 'params': params, 'witness': wit, 'profile': prof,
-                                          'error': 'oracle rejected the real build: %s' % e})
+                                          'error': 'oracle rejected the real build: %s' % getattr(e, 'msg', e)})
+                    continue
+                except (Unsupported, BoundExceeded, Infeasible) as e:
+                    unusable.append('%s: %s' % (fac, e))
+                    continue
+                if unordered is None:
+                    outs[prof] = a
                     continue
                 m2 = ex2.model_for(True)
                 outs[prof] = [conc(ex2, v, m2) for v in ex2.env.get('last_output', [])]
@@ -117,7 +146,7 @@ def main():
           'coverage': {'programs': max(programs, 1), 'disagreements_checked': len(disagreements),
                        'samples': samples or [{'note': 'none'}], 'skipped_paths': skipped,
                        'kinds': [k[1] + ':' + json.dumps(k[2]) for k in KINDS],
-                       'disagreements': disagreements[:10],
+                       'disagreements': disagreements[:10], 'native_runs_unusable': sorted(set(unusable))[:10],
                        'explanation': 'random symbolic paths of each harness executed by mirsym and by the real dev and '
                                       'release builds on the same concrete inputs; outputs compared element by element'},
           'wall_s': round(time.time() - t0, 1), 'violations': len(disagreements)}
@@ -125,6 +154,8 @@ def main():
     json.dump(ev, open(os.path.join(common.EVIDENCE, '_validation.json'), 'w'), indent=1, default=str)
     print('translator validation: %d programs, %d disagreements, %d skipped, %.0fs' %
           (programs, len(disagreements), skipped, time.time() - t0))
+    for u in sorted(set(unusable))[:10]:
+        print('UNUSABLE', u[:300])
     for d in disagreements[:5]:
         print('DISAGREEMENT', json.dumps(d, default=str)[:800])
     sys.exit(1 if disagreements else 0)
